@@ -58,3 +58,74 @@ SPD_FAMILIES = [("random", spd_random), ("graded", spd_graded), ("hilbert", spd_
 
 def flat_bits(A):
     return [f2b(float(x)) for r in A for x in r]
+
+
+# ------------------------------------------------------------------------------------------------
+# graphs
+# ------------------------------------------------------------------------------------------------
+CATALOGUE = {
+    "tadpole": [(0, 0)],
+    "bubble": [(0, 1), (0, 1)],
+    "triangle": [(0, 1), (1, 2), (2, 0)],
+    "box": [(0, 1), (1, 2), (2, 3), (3, 0)],
+    "sunrise": [(0, 1), (0, 1), (0, 1)],
+    "banana4": [(0, 1), (0, 1), (0, 1), (0, 1)],
+    "double_triangle": [(0, 1), (1, 2), (2, 0), (0, 3), (3, 1)],     # kite: triangle 0-1-2 + path 0-3-1
+    "kite": [(0, 1), (1, 2), (2, 3), (3, 0), (0, 2)],
+    "bubble_chain": [(0, 1), (0, 1), (1, 2), (1, 2)],
+    "triangle_tadpole": [(0, 1), (1, 2), (2, 0), (2, 2)],
+    "bubble_leg": [(0, 1), (0, 1), (1, 2)],
+    "two_bubbles": [(0, 1), (0, 1), (2, 3), (2, 3)],                    # disconnected
+    "mercedes": [(0, 1), (1, 2), (2, 0), (0, 3), (1, 3), (2, 3)],
+    "ladder2": [(0, 1), (1, 2), (2, 3), (3, 0), (0, 2), (1, 3)],
+    "ladder3": [(0, 1), (1, 2), (2, 3), (3, 4), (4, 5), (5, 0), (1, 4), (2, 5)],
+    "tadpole_pair": [(0, 0), (0, 0)],
+    "sunrise_tadpole": [(0, 1), (0, 1), (0, 1), (1, 1)],
+}
+
+
+def random_multigraph(rng, max_e, max_v=5):
+    ne = rng.randint(1, max_e)
+    nv = rng.randint(1, max_v)
+    edges = []
+    for _ in range(ne):
+        if rng.random() < 0.12:
+            v = rng.randrange(nv); edges.append((v, v))
+        else:
+            edges.append((rng.randrange(nv), rng.randrange(nv)))
+    return edges
+
+
+def random_connected(rng, max_e, max_v=5):
+    """connected multigraph with at least one loop"""
+    for _ in range(200):
+        nv = rng.randint(1, max_v)
+        tree = [(rng.randrange(i), i) for i in range(1, nv)]
+        extra = rng.randint(1, max(1, max_e - len(tree)))
+        edges = tree + [((lambda a: (a, a))(rng.randrange(nv)) if rng.random() < 0.1 else (rng.randrange(nv), rng.randrange(nv)))
+                        for _ in range(extra)]
+        if len(edges) <= max_e:
+            rng.shuffle(edges)
+            return edges
+    return [(0, 1), (0, 1)]
+
+
+def relabel(rng, edges, extra_vertices=0):
+    """map vertex slots to random distinct u8 labels; returns (edges, labels of slots, unused labels)"""
+    nv = max(max(e) for e in edges) + 1
+    labels = rng.sample(range(256), nv + extra_vertices)
+    return [(labels[a], labels[b]) for a, b in edges], labels[:nv], labels[nv:]
+
+
+def weight_choice(rng, style):
+    if style == "twelfths":
+        return rng.randint(2, 30) / 12.0
+    if style == "unit":
+        return rng.choice([1.0, 1.0, 2.0, 1.5, 0.5])
+    return rng.uniform(0.15, 2.8)
+
+
+def graph_request(edges, weights, massive, ext, D):
+    return {"op": "graph", "D": D,
+            "edges": [[a, b, f2b(w), bool(m)] for (a, b), w, m in zip(edges, weights, massive)],
+            "ext": list(ext)}
